@@ -129,10 +129,12 @@ def run(chk, tier, seed):
     W = c04.World(vlib.scratch("c12_pki"))
     exe_sig = vlib.build_driver("drv_sig"); exe_pf = vlib.build_driver("drv_pubfile"); exe_pub = vlib.build_driver("drv_pub"); from checks import c20
     exe_uri = vlib.build_driver("drv_uri", ldflags=["-Wl," + ",".join("--wrap=" + w for w in c20.WRAPS)])
+    exe_tlv = vlib.build_driver("drv_tlv"); seed_bytes = []
     quick = tier == "quick"
     total = 0; per_seed = {}; accepted = 0
     probe = "V INTERNAL %s - -" % ksi.build_sig(rng, ksi.imprint(1, b"probe"), anchor="pub").tlv().hex()
     for name, entry, raw in seeds(rng, W):
+        seed_bytes.append(raw)
         spans = spans_of(raw)
         stride = (1 if len(raw) < 700 else 3 if len(raw) < 1500 else 7) if quick else 1
         muts = tlc_mutations(chk, name.replace("-", "_").replace(".", "_"), raw, spans[:200], stride)
@@ -179,6 +181,25 @@ def run(chk, tier, seed):
             if dsc == "probe" and o is not None and not ("res=0" in o or "rc=0x0" in o):
                 chk.violation("context-unusable:" + entry, "after the mutated inputs of seed %s a good object is no longer handled correctly: %s" % (name, o[:200]), dict(seed=name))
         total += len(lines); per_seed[name] = len(lines)
+    # string rendering of parsed objects into caller buffers of every size (tlv.c stringify behind KSI_TLV_toString / KSI_LOG_logTlv)
+    lines = []
+    for raw in seed_bytes:
+        try:
+            top = ksi.parse_tlvs(raw)
+        except Exception:
+            continue
+        if len(top) == 1:
+            lines.append("T " + raw.hex())
+            for t, nc, fw, p, _ in ksi.parse_tlvs(top[0][3])[:12]:
+                lines.append("T " + ksi.tlv(t, p, nc=nc, fw=fw).hex())
+    lines += ["T " + ksi.tlv(0x01, bytes(range(k))).hex() for k in range(0, 70)] + ["T " + ksi.tlv(0x0800, ksi.tlv(0x01, bytes(k)) * 3, long=True).hex() for k in range(0, 40)]
+    outs, crashes = vlib.run_lines(exe_tlv, lines)
+    for idx, rc, err in crashes:
+        chk.violation("memory-error:tlv-to-string", "rendering a parsed TLV into a caller buffer failed\n%s" % err[-2500:], dict(line=lines[idx][:400]))
+    for l, o in zip(lines, outs):
+        if o and " bad=0" not in o + " " and " rc=0 " in o + " ":
+            chk.violation("rendering:not-terminated-or-not-a-prefix", "KSI_TLV_toString: a rendering is not NUL-terminated inside its buffer or not a prefix of the full rendering: %s" % o, dict(line=l[:400]))
+    total += len(lines); per_seed["tlv-to-string"] = len(lines)
     # text entry points
     from checks import c17
     lines = []
